@@ -1,0 +1,38 @@
+//go:build verif
+
+package splunk
+
+// Contracts for the verification harness under /verif (comment-only file).
+//
+// C19: the per-event callback of out builds the envelope of one event in the shared
+// root, appends its encoding once, and resets the root to an empty object before the
+// next event: fields copied into the envelope (copy_fields) must not survive into
+// the envelope of a later event that lacks them.
+
+//@ func (*Plugin).out$1
+//@   option allow-exit yes
+//@   ghost nenc int = 0
+//@   ghost nreset int = 0
+//@   ensures nenc == 1 && nreset == 1
+//@   ensures len(outBuf) >= old(len(outBuf))
+//@   loop 1 invariant nenc == 0 && nreset == 0 && outBuf == old(outBuf)
+//@   callee AddField(name) (n)
+//@     requires nenc == 0
+//@     pure
+//@   callee MutateToNode(n) (r)
+//@     requires nenc == 0
+//@     pure
+//@   callee Dig(path) (n)
+//@     pure
+//@   callee CreateNestedField(r, path) (n)
+//@     requires nenc == 0
+//@     pure
+//@   callee Encode(buf) (r)
+//@     requires nenc == 0 && buf == outBuf
+//@     pure
+//@     ensures len(r) >= len(buf)
+//@     set nenc := nenc + 1
+//@   callee DecodeString(s) (e)
+//@     requires s == "{}" && nenc == 1 && nreset == 0
+//@     pure
+//@     set nreset := nreset + 1
